@@ -71,6 +71,7 @@ PROPS = {
         theorems=[],
         streams=[stream('union', 'whole', kinds=('union',), faults=0.3)],
         k2=['union'], k2_n=(80, 800),
+        direct=('c20', (1500, 20000)),
     ),
     'C09': dict(
         title='Deref and DerefMut expose exactly the designated field',
@@ -90,7 +91,7 @@ PROPS = {
         theorems=[],
         streams=[stream('all', 'whole', faults=0.05, n=(4000, 60000))],
         k2=['eq', 'hash', 'ord', 'ordlayout', 'debug', 'clone', 'default', 'deref', 'into', 'union', 'bounds', 'generics'],
-        k2_ops=['compile', 'crash'], k2_n=(25, 300),
+        k2_ops=['compile', 'crash'], k2_n=(60, 600),
     ),
     'C11': dict(
         title='Automatic bounds are exactly those the generated code needs',
@@ -102,7 +103,7 @@ PROPS = {
         title='Generated code is insulated from the names at the derive site',
         theorems=[],
         streams=[stream('names', 'whole', faults=0.0, n=(3000, 50000))],
-        k2=['eq', 'hash', 'ord', 'debug', 'clone', 'deref', 'into'], k2_hostile=True, k2_n=(30, 300),
+        k2=['eq', 'hash', 'ord', 'debug', 'clone', 'deref', 'into', 'generics'], k2_hostile=True, k2_n=(40, 400),
     ),
     'C12': dict(
         title="Explicit bound modes and the type's own generics are honoured verbatim",
@@ -144,7 +145,7 @@ PROPS = {
         title='Every subset of trait features builds and behaves like the full build',
         theorems=['C18_refs_enabled', 'C18_empty_refused', 'C18_scan_complete', 'C18_disabled_rejected'],
         streams=[],
-        direct=('c18', (10, 4095)),
+        direct=('c18', (30, 4095)),
     ),
 }
 
@@ -242,10 +243,24 @@ def run_check(pid, tier, seed):
     # 1. proof obligations
     obl, _ = vlib.coq_obligations(pid, P['theorems'], P.get('modules')) if P['theorems'] else ([], '')
     bad = vlib.forbidden_grep()
-    for o in obl:
-        if not o['ok']:
-            report.fail('obligation:' + o['name'], 'theorem %s does not check or depends on axioms: %s' % (o['name'], o['detail'][:200]),
-                        dict(theorem=o['name'], detail=o['detail']), found_input=False)
+    bad_obl = [o for o in obl if not o['ok']]
+    if bad_obl:
+        # one line for the whole property file: say why it no longer compiles (typically an inventory lemma against
+        # the regenerated Gen/Sources.v) with the error of the make log
+        why = ''
+        try:
+            logtxt = open(os.path.join(vlib.BUILD, 'coq_make.log')).read()
+            for m in P.get('modules') or []:
+                f = './Properties/%s.v' % m.split('.')[-1]
+                i = logtxt.find('File "%s"' % f)
+                if i >= 0:
+                    why += logtxt[i:i + 700] + '\n'
+        except Exception:
+            pass
+        report.fail('obligation:' + ','.join(o['name'] for o in bad_obl[:3]),
+                    '%d theorem(s) of %s no longer check (%s%s): %s' % (len(bad_obl), pid, ', '.join(o['name'] for o in bad_obl[:4]), ' ...' if len(bad_obl) > 4 else '',
+                                                                          (why or bad_obl[0]['detail'])[:600]),
+                    dict(theorems=[o['name'] for o in bad_obl], detail=bad_obl[0]['detail'], make_log=why), found_input=False)
     for b in bad:
         report.fail('forbidden:' + b, 'forbidden construct in the development: ' + b, found_input=False)
     chk = None
